@@ -166,6 +166,7 @@ func (w *World) emit(ev string, args Rec, res PhaseResult) Rec {
 		rec["err"] = errClass(res.Err)
 		if res.Panic {
 			rec["panic"] = true
+			rec["panickind"] = panicKind(res.Err)
 			rec["errfull"] = firstLines(res.Err, 12)
 		}
 	}
@@ -175,6 +176,18 @@ func (w *World) emit(ev string, args Rec, res PhaseResult) Rec {
 	}
 	w.Tr.Emit(rec)
 	return rec
+}
+
+// panicKind names the class of a recovered panic (the trace specifications tell known consequences of open findings
+// from everything else by it).
+func panicKind(s string) string {
+	switch {
+	case strings.Contains(s, "negative coin amount"):
+		return "negative-coin"
+	case strings.Contains(s, "out of range"), strings.Contains(s, "out of bounds"):
+		return "bounds"
+	}
+	return "other"
 }
 
 func firstLines(s string, n int) string {
